@@ -333,7 +333,7 @@ func (cu *CellUnion) CapBound() Cap {
 		c = c.AddCap(CellFromCellID(ci).CapBound())
 	}
 
-	return c
+	return c.roundedUp()
 }
 
 // ContainsCell reports whether this cell union contains the given cell.
